@@ -60,3 +60,10 @@ Example C11_example_dispatch :
   dispatch ex_names true [98;99]%N = Method 2 /\ dispatch ex_names true [98;99;100]%N = Fallback /\
   dispatch ex_names false [98]%N = Revert 123.
 Proof. vm_compute. repeat split. Qed.
+
+(* The dispatch theorems speak about contracts whose `__entry` compiles.  It does not when the pooled
+   names push an arm offset past the 12-bit immediate of `addi` (replayed on the compiler: 70 methods
+   with 60-byte names are rejected, 69 are accepted). *)
+Definition ex_big (k : nat) : list name := map (fun i => repeat (N.of_nat i) 60) (seq 1 k).
+Example C11_entry_limit : entry_ok (ex_big 69) = true /\ entry_ok (ex_big 70) = false.
+Proof. split; vm_compute; reflexivity. Qed.
